@@ -63,7 +63,7 @@ Section C03.
   Proof. exact (hit_same_class_x vary_tuple cf). Qed.
 End C03.
 
-(** before the repair (repo 16171bb) the answer of an internal route (override URI of a Prime extension) was stored
+(** before the repair (repo 9992768) the answer of an internal route (override URI of a Prime extension) was stored
     under the key of the requested page and then served for that page: the caching server answers "internal" where the
     cache-less one answers "page" *)
 Theorem override_poisons_refuted :
@@ -71,7 +71,7 @@ Theorem override_poisons_refuted :
   bodies (run_cfgx false w3_cx w3_ops) = [B "internal"; B "page"].
 Proof. exact override_poisons_refuted_w. Qed.
 
-(** before the repair (repo 1ffc338) a response streamed without a length got a vary header from the cached-item arm
+(** before the repair (repo 00528a6) a response streamed without a length got a vary header from the cached-item arm
     but none from a cache-less host *)
 Theorem stream_vary_refuted :
   nth 1 (vary_of (run_cfgx true w5_cx w1_ops)) None = Some (B "accept-encoding, x-v") /\
